@@ -76,6 +76,9 @@ def recipes():
                      ('cummul', lambda X_: pp.cummul(X_.tensor(), 0)), ('tensor', lambda X_: X_.tensor() + 1), ('clone', lambda X_: X_.clone()),
                      ('bspline', lambda X_: pp.bspline(pp.randn_SE3(5, dtype=d), 0.5)), ('geodesic', lambda X_: pp.geodesic_loss(X_, X_))]:
         R[f'lie.{name}'] = (lambda fn=fn: chk(lambda X_: fn(X_), X_=X.clone()))
+    for name, fn in [('cummul[method]', lambda X_: X_.cummul(0)), ('cumprod[method]', lambda X_: X_.cumprod(0, left=False)), ('cumops[method]', lambda X_: X_.cumops(0, lambda u, v: u @ v)),
+                     ('cummul[function]', lambda X_: pp.cummul(X_, 0)), ('cumprod[function]', lambda X_: pp.cumprod(X_, 0)), ('cumops[function]', lambda X_: pp.cumops(X_, 0, lambda u, v: u @ v))]:
+        R[name] = (lambda fn=fn: chk(lambda X_: fn(X_), X_=X.clone()))
     for name, fn in [('mul', lambda X_, Y_: X_ @ Y_), ('Retr', lambda X_, Y_: X_.Retr(a)), ('add', lambda X_, Y_: X_ + a), ('Adj', lambda X_, Y_: X_.Adj(a)),
                      ('AdjT', lambda X_, Y_: X_.AdjT(a)), ('Jinvp', lambda X_, Y_: X_.Jinvp(a)), ('Act', lambda X_, Y_: X_.Act(p))]:
         R[f'lie.{name}'] = (lambda fn=fn: chk(lambda X_, Y_, a_, p_: fn(X_, Y_), X_=X.clone(), Y_=Y.clone(), a_=a, p_=p))
@@ -144,7 +147,7 @@ def frame_check(rng, tier):
         names = [k for k in rec if k.split('[')[0].split('(')[0] in (f.qual, f.name)]
         if not names:
             fails.append(dict(clause='flagged_without_replay', signature=f'{f.mod}:{f.qual}({p})', sites=[f'line {l}: {x}' for l, x in w][:3],
-                              note='static frame contract violated and no replay recipe exists'))
+                              note='static frame contract violated and no replay recipe exists', no_input=True))
             continue
         mutated = False
         for nm in names:
